@@ -5,13 +5,21 @@ TRUST_COMMON = ("Trusted: numpy/scipy/h5py/pandas/pymoo contracts of DESIGN §4.
                 "numpy-2 compatibility shim in the harness process. ")
 CLAIMED["C01"] = dict(
     level="proof",
-    technique="deductive: loop-invariant VCs generated from the real source (AST loop cutting, CPython proxy execution), z3/cvc5; native ring as bounded stand-in for the protocol classes",
+    technique="deductive: loop-invariant VCs generated from the real source (AST loop cutting, CPython proxy execution), z3/cvc5, modular over three layers (meiosis kernel -> gamete stacking -> the seven mate() protocols); native ring as counterexample search and replay route",
     text="The meiosis kernels (mat_meiosis, dense_meiosis) are proved against the ghost copy-function contract for all array "
          "sizes, index vectors, crossover vectors and generator outcomes (loop invariants, induction lemmas); mat_mate/mat_dh/"
-         "dense_cross/dense_dh are proved modularly against the kernel contract. The seven mate() methods are covered by a "
-         "bounded native ring with provenance-coded founders (labelled bounded in evidence, not counted as proved).",
-    note=TRUST_COMMON + "Assumed contracts: numpy.flatnonzero, numpy.stack, numpy.empty, Generator.uniform range. "
-         "Progeny counters below 10^7 (zero-padded names keep generation order).",
+         "dense_cross/dense_dh are proved modularly against the kernel contract; all seven mate() methods (scalar and per-cross "
+         "array counts, symbolic selfing depth) are proved modularly against the stacking contracts: progeny count == sum of "
+         "nmating*nprogeny, the stage tree behind every progeny is exactly the configured cross scheme (which parental column "
+         "feeds which side of which cross, row by row through the numpy.repeat position maps), every allele descends from a "
+         "configured parent of the progeny's family, doubled haploids are homozygous, names are prefix + zero-padded progeny "
+         "number (pairwise distinct), family labels and both counters follow the counts exactly, marker metadata is handed on "
+         "by identity and the parental arrays are never written. The progeny matrix constructor is a recording stand-in (its "
+         "well-formedness and group_taxa are C03 contracts). A bounded native ring with provenance-coded founders is the "
+         "counterexample search (labelled bounded in evidence, not counted as proved).",
+    note=TRUST_COMMON + "Assumed contracts: numpy.flatnonzero, numpy.stack, numpy.empty, numpy.repeat position map (ghost prefix sums) "
+         "and its composition law repeat(x, m*g) == repeat(repeat(x, m), repeat(g, m)) (checked natively each run), Generator.uniform "
+         "range, python str/zfill/concatenation injectivity. Progeny counters below 10^7 (zero-padded names keep generation order).",
 )
 CLAIMED["C20"] = dict(
     level="proof",
@@ -120,11 +128,13 @@ _claim("C13", "other",
        "patterns, reference frequencies and weights for shapes <= 3x3 (bounded in shape); the per-locus IBS identity and positive semidefiniteness of Gram matrices "
        "are proved as lemmas. Larger shapes, summaries and int8 accumulation limits are covered by the bounded native ring.", "")
 _claim("C14", "other",
-       "deductive lemma (z3) on the formulas obtained by running the real set_h2 / set_H2 on symbolic variances + native ring with recording/scripted generators",
-       "Not a proof: set_h2 / set_H2 (extracted from the current source, genomic model stubbed by symbolic variances) are proved to fix var_err so that "
-       "var/(var+var_err) equals the target for all 0 < h2 <= 1 and var > 0, per trait. Record structure and labels, zero-noise truth, additive noise structure by "
-       "classifying recorded draws, mean-phenotype alignment / invariance / missing taxa are the bounded native ring. Statistical convergence is an assumption.",
-       "i.i.d. normal draws and the law of large numbers are assumed.")
+       "bounded symbolic execution (mode B) of the real phenotype() with symbolic genotypic values, variances and scripted symbolic normal draws + deductive lemma (z3) for set_h2 / set_H2 + native ring",
+       "Not a proof: phenotype() is executed on symbolic true values for <= 3 taxa, <= 2 traits, <= 2 environments with 0-2 replicates each (equal and unequal): "
+       "exactly one record per taxon x environment x replicate in env-major order, each with its taxon's labels, value == true value + environment draw + replicate draw + "
+       "error draw, every draw requested with mean 0 and diag(variance) of the right component, and records equal to the true values when all variances are zero; "
+       "set_h2 / set_H2 (extracted from the current source, genomic model stubbed by symbolic variances) are proved to fix var_err so that var/(var+var_err) equals the "
+       "target for all 0 < h2 <= 1 and var > 0. Mean-phenotype alignment / invariance / missing taxa (pandas groupby) and the statistical clauses are the bounded native ring.",
+       "i.i.d. normal draws and the law of large numbers are assumed; a draw with zero variance equals its mean (assumed numpy contract); pandas internals outside the contracts.")
 _claim("C15", "proof",
        "deductive, proxy execution (mode A1): the real select/delete/insert/adjoin_taxa run on opaque symbolic arrays and must hand from_numpy exactly OP(unscale()) with labels moved by the same OP; round trip and summaries bounded-symbolic (mode B); native ring",
        "Proved for all shapes and contents (3 classes x 6 operation forms x 3 label configurations): the structural operation passes OP(unscaled values) and OP(labels) to "
@@ -132,16 +142,23 @@ _claim("C15", "proof",
        "proved for all values for shapes <= 3x2 incl. the constant-column branch). Original-scale summaries are bounded-symbolic. Inherited concat/append/incorp/remove and "
        "the constant-trait statistics are recorded known findings.", "from_numpy/unscale round trip is bounded in shape (mode B).")
 _claim("C16", "other",
-       "bounded symbolic execution of the real h5py_File_write_dict over an abstract file map (keys <= 3, arbitrary contents and pre-states) + A1 copy/deepcopy obligations of C03 + native round-trip ring",
+       "bounded symbolic execution of the real h5py_File_write_dict over an abstract file map (keys <= 3, arbitrary contents and pre-states) + proxy execution (A1) of the real to_hdf5/from_hdf5 of 12 classes on token-valued fields over the abstract file + frame obligation on every copy method + A1 copy/deepcopy obligations of C03 + native round-trip ring",
        "Last-write-wins, nothing stale, other paths untouched are proved for the real write routine for dictionaries of <= 3 keys (arrays, None, nested) under every "
-       "pre-state of the touched paths, contents arbitrary; copy/deepcopy field equality and non-sharing for 11 matrix classes are proved under C03. HDF5/pandas/CSV/VCF "
-       "round trips and write sequences are the bounded native ring. Two genuine defects repaired, seven recorded.", "h5py modelled as a finite path->value map; pandas/cyvcf2 internals outside the contracts.")
+       "pre-state of the touched paths, contents arbitrary. For 12 persistable classes the real to_hdf5 and from_hdf5 are executed on opaque field tokens with the write "
+       "routine replaced by that contract: every field is read back from exactly what the same field stored (with a reader of its kind: utf-8 for text, dict for hyper-"
+       "parameters), nothing is invented, absent optional fields come back as None even over a file that held them, the caller's handle stays open, at root and in a group "
+       "(580 obligations). No copy/deepcopy method of the package keeps state between calls (mutable defaults; 104 methods); copy/deepcopy field equality and non-sharing "
+       "for 11 matrix classes are proved under C03. Value round trips through h5py/pandas/CSV/VCF and write sequences are the bounded native ring. Two genuine defects "
+       "repaired, seven recorded.", "h5py modelled as a finite path->value map; pandas/cyvcf2 internals outside the contracts.")
 _claim("C17", "other",
-       "deductive lemmas (z3, real arithmetic) for the pointer lattice of stochastic universal sampling and the tiling arithmetic + native ring with scripted offsets and exact rational counts",
-       "Not a proof of the code: the floor/ceil count law, 'k pointers on the wheel', 'zero weight owns an empty interval' and the q-or-q+1 tiling law are proved as lemmas in "
-       "real/integer arithmetic over the specification; that the real loops realise this specification (and their float behaviour) is the bounded native ring: SUS counts with "
-       "exact fractions at scripted float-edge offsets, tiled_choice balance, axis_shuffle slices, outcross_shuffle multiset / monotone / brute-force local optimality. "
-       "Two genuine SUS defects repaired, float-rounding and edge-argument classes recorded.", "")
+       "deductive: loop-invariant VCs generated from the real stochastic_universal_sampling source (nested for/while loops cut, python list and numpy sum/argsort/cumsum/count_nonzero by assumed contracts, z3) + lemmas for the pointer lattice and tiling arithmetic + native ring with scripted offsets and exact rational counts",
+       "stochastic_universal_sampling is proved in real arithmetic for all n, k, weights >= 0 with positive sum and every generator outcome: exactly k draws; pointer g is "
+       "offset + g*sum/k with 0 <= offset < sum/k from one uniform draw on the given generator; each pointer is served by the sorted position that owns it (all earlier "
+       "running sums <= pointer, pointer < its running sum or it is the last positive position); that position has positive weight, so zero weight is never selected; "
+       "the output is a[.] of a permutation of the selections. The floor/ceil count law then follows from the lattice lemma (proved at specification level). The float "
+       "behaviour, tiled_choice, axis_shuffle and outcross_shuffle are the bounded native ring, so the property as a whole is not claimed as proof. Two genuine SUS "
+       "defects repaired, float-rounding and edge-argument classes recorded.",
+       "Assumed numpy contracts: sum (ghost prefix sums), argsort (sorting permutation), cumsum, count_nonzero (positives are the tail of the sorted order), Generator.uniform in [low, high], shuffle is a permutation; a positive sum of non-negative terms has a positive term.")
 _claim("C18", "other",
        "deductive: loop-invariant VCs generated from the real haplobin_bounds source (AST loop cutting, symbolic list model, z3) + OHV/OPV bound lemmas + native ring incl. exhaustive small marker layouts",
        "haplobin_bounds is proved for label arrays of every length: starts/stops chain from 0 to n, lengths are stops - starts >= 1, labels are constant inside each block and "
